@@ -122,3 +122,336 @@ Theorem C17_full_idem_guard_needed :
   full_chunk_groups_dev [18446744073709551600] 4 = None.
 Proof. exact full_idem_guard_needed. Qed.
 Print Assumptions C17_full_idem_guard_needed.
+
+(* ======== Gap audit: explicit minimality / maximality, exact domains and tightness of the guards for every helper
+   (proofs in Proofs/GapC17.v) ======== *)
+From BaoV Require Import Proofs.GapC17.
+Local Open Scope N_scope.
+
+
+(* ---- round_up_to_chunks: cover and minimality as explicit clauses; the domain is total (no guard) ---- *)
+Theorem C17_chunks_covers : forall br,
+  wf_ranges br = true ->
+  forall b, mem br b = true -> mem (round_up_to_chunks br) (b / 1024) = true.
+Proof. exact gap_chunks_covers. Qed.
+Print Assumptions C17_chunks_covers.
+
+Theorem C17_chunks_least : forall br (P : N -> bool),
+  wf_ranges br = true ->
+  (forall b, mem br b = true -> P (b / 1024) = true) ->
+  forall c, mem (round_up_to_chunks br) c = true -> P c = true.
+Proof. exact gap_chunks_least. Qed.
+Print Assumptions C17_chunks_least.
+
+Theorem C17_chunks_covers_nonvacuous :
+  exists br b, wf_ranges br = true /\ mem br b = true /\
+               mem (round_up_to_chunks br) (b / 1024) = true /\ mem br (b / 1024) = false.
+Proof. exact gap_chunks_covers_nonvacuous. Qed.
+Print Assumptions C17_chunks_covers_nonvacuous.
+
+Theorem C17_chunks_least_nonvacuous :
+  exists br (P : N -> bool), wf_ranges br = true /\
+    (forall b, mem br b = true -> P (b / 1024) = true) /\ P 0 = false /\ P 1 = true /\ P 3 = false.
+Proof. exact gap_chunks_least_nonvacuous. Qed.
+Print Assumptions C17_chunks_least_nonvacuous.
+
+
+(* ---- round_up_to_chunks_groups under the guard (closed end boundaries <= 2^64 - 2^bs): superset, group-aligned,
+   least such set; idempotent as a LIST (C17_groups_idem above is at the level of mem) ---- *)
+Theorem C17_groups_superset : forall r bs,
+  bs <= 10 -> wf_ranges r = true ->
+  (forall i e, Nat.odd i = true -> nth_error r i = Some e -> e <= 2 ^ 64 - 2 ^ bs) ->
+  forall c, mem r c = true -> mem (round_up_to_chunks_groups r bs) c = true.
+Proof. exact gap_groups_superset. Qed.
+Print Assumptions C17_groups_superset.
+
+Theorem C17_groups_aligned : forall r bs,
+  bs <= 10 -> wf_ranges r = true ->
+  (forall i e, Nat.odd i = true -> nth_error r i = Some e -> e <= 2 ^ 64 - 2 ^ bs) ->
+  forall c c', c / 2 ^ bs = c' / 2 ^ bs ->
+    mem (round_up_to_chunks_groups r bs) c = mem (round_up_to_chunks_groups r bs) c'.
+Proof. exact gap_groups_aligned. Qed.
+Print Assumptions C17_groups_aligned.
+
+Theorem C17_groups_least : forall r bs,
+  bs <= 10 -> wf_ranges r = true ->
+  (forall i e, Nat.odd i = true -> nth_error r i = Some e -> e <= 2 ^ 64 - 2 ^ bs) ->
+  forall P : N -> bool,
+    (forall c, mem r c = true -> P c = true) ->
+    (forall c c', c / 2 ^ bs = c' / 2 ^ bs -> P c = P c') ->
+    forall c, mem (round_up_to_chunks_groups r bs) c = true -> P c = true.
+Proof. exact gap_groups_least. Qed.
+Print Assumptions C17_groups_least.
+
+Theorem C17_groups_idem_list : forall r bs,
+  bs <= 10 -> wf_ranges r = true ->
+  (forall i e, Nat.odd i = true -> nth_error r i = Some e -> e <= 2 ^ 64 - 2 ^ bs) ->
+  round_up_to_chunks_groups (round_up_to_chunks_groups r bs) bs = round_up_to_chunks_groups r bs.
+Proof. exact gap_groups_idem_list. Qed.
+Print Assumptions C17_groups_idem_list.
+
+Theorem C17_groups_superset_nonvacuous :
+  exists r bs c, bs <= 10 /\ wf_ranges r = true /\
+    (forall i e, Nat.odd i = true -> nth_error r i = Some e -> e <= 2 ^ 64 - 2 ^ bs) /\
+    mem r c = true /\ round_up_to_chunks_groups r bs <> r.
+Proof. exact gap_groups_superset_nonvacuous. Qed.
+Print Assumptions C17_groups_superset_nonvacuous.
+
+Theorem C17_groups_aligned_nonvacuous :
+  exists r bs c c', bs <= 10 /\ wf_ranges r = true /\
+    (forall i e, Nat.odd i = true -> nth_error r i = Some e -> e <= 2 ^ 64 - 2 ^ bs) /\
+    c / 2 ^ bs = c' / 2 ^ bs /\ c <> c' /\ mem r c <> mem r c'.
+Proof. exact gap_groups_aligned_nonvacuous. Qed.
+Print Assumptions C17_groups_aligned_nonvacuous.
+
+Theorem C17_groups_least_nonvacuous :
+  exists r bs (P : N -> bool), bs <= 10 /\ wf_ranges r = true /\
+    (forall i e, Nat.odd i = true -> nth_error r i = Some e -> e <= 2 ^ 64 - 2 ^ bs) /\
+    (forall c, mem r c = true -> P c = true) /\
+    (forall c c', c / 2 ^ bs = c' / 2 ^ bs -> P c = P c') /\
+    P 0 = true /\ P 16 = false.
+Proof. exact gap_groups_least_nonvacuous. Qed.
+Print Assumptions C17_groups_least_nonvacuous.
+
+Theorem C17_groups_idem_list_nonvacuous :
+  exists r bs, bs <= 10 /\ wf_ranges r = true /\
+    (forall i e, Nat.odd i = true -> nth_error r i = Some e -> e <= 2 ^ 64 - 2 ^ bs) /\
+    round_up_to_chunks_groups r bs <> r /\ round_up_to_chunks_groups r bs <> [].
+Proof. exact gap_groups_idem_list_nonvacuous. Qed.
+Print Assumptions C17_groups_idem_list_nonvacuous.
+
+
+(* ---- tightness of the guard of round_up_to_chunks_groups: right outside it (any closed end e with
+   2^64 - 2^bs < e < 2^64, every block size 0..10, every start s) the end wraps to 0 and the whole range is lost ---- *)
+Theorem C17_groups_guard_tight : forall bs s e,
+  bs <= 10 -> s < e -> e < 2 ^ 64 -> 2 ^ 64 - 2 ^ bs < e ->
+  round_up_to_chunks_groups [s; e] bs = [].
+Proof. exact gap_groups_guard_tight. Qed.
+Print Assumptions C17_groups_guard_tight.
+
+Theorem C17_groups_guard_tight_nonvacuous :
+  exists bs s e, bs <= 10 /\ s < e /\ e < 2 ^ 64 /\ 2 ^ 64 - 2 ^ bs < e /\
+                 wf_ranges [s; e] = true /\ mem [s; e] s = true.
+Proof. exact gap_groups_guard_tight_nonvacuous. Qed.
+Print Assumptions C17_groups_guard_tight_nonvacuous.
+
+
+(* for range sets without an open-ended range the guard is EXACTLY the domain on which the result is a superset *)
+Theorem C17_groups_domain_closed : forall r bs,
+  bs <= 10 -> wf_ranges r = true -> Nat.even (length r) = true ->
+  ((forall c, mem r c = true -> mem (round_up_to_chunks_groups r bs) c = true)
+   <-> (forall i e, Nat.odd i = true -> nth_error r i = Some e -> e <= 2 ^ 64 - 2 ^ bs)).
+Proof. exact gap_groups_domain_closed. Qed.
+Print Assumptions C17_groups_domain_closed.
+
+Theorem C17_groups_domain_closed_nonvacuous :
+  (exists r bs, bs <= 10 /\ wf_ranges r = true /\ Nat.even (length r) = true /\ r <> [] /\
+     (forall i e, Nat.odd i = true -> nth_error r i = Some e -> e <= 2 ^ 64 - 2 ^ bs)) /\
+  (exists r bs, bs <= 10 /\ wf_ranges r = true /\ Nat.even (length r) = true /\
+     ~ (forall c, mem r c = true -> mem (round_up_to_chunks_groups r bs) c = true)).
+Proof. exact gap_groups_domain_closed_nonvacuous. Qed.
+Print Assumptions C17_groups_domain_closed_nonvacuous.
+
+
+(* with an open-ended last range the guard is sufficient but not necessary: a violating closed range can be absorbed *)
+Theorem C17_groups_guard_not_necessary :
+  wf_ranges [18446744073709551613; 18446744073709551614; 18446744073709551615] = true /\
+  round_up_to_chunks_groups [18446744073709551613; 18446744073709551614; 18446744073709551615] 4
+    = [18446744073709551600] /\
+  ~ (forall i e, Nat.odd i = true ->
+       nth_error [18446744073709551613; 18446744073709551614; 18446744073709551615] i = Some e ->
+       e <= 2 ^ 64 - 2 ^ 4) /\
+  (forall c,
+     mem (round_up_to_chunks_groups [18446744073709551613; 18446744073709551614; 18446744073709551615] 4) c = true
+     <-> exists c', mem [18446744073709551613; 18446744073709551614; 18446744073709551615] c' = true /\
+                    c / 2 ^ 4 = c' / 2 ^ 4).
+Proof. exact gap_groups_guard_not_necessary. Qed.
+Print Assumptions C17_groups_guard_not_necessary.
+
+
+(* ---- full_chunk_groups: subset, group-aligned, greatest such set - debug build under the strict guard (start
+   boundaries < 2^64 - 2^bs), release build under the weak guard (<=) ---- *)
+Theorem C17_full_dev_subset : forall r bs res,
+  bs <= 10 -> wf_ranges r = true ->
+  (forall i s, Nat.even i = true -> nth_error r i = Some s -> s < 2 ^ 64 - 2 ^ bs) ->
+  full_chunk_groups_dev r bs = Some res ->
+  forall c, mem res c = true -> mem r c = true.
+Proof. exact gap_full_dev_subset. Qed.
+Print Assumptions C17_full_dev_subset.
+
+Theorem C17_full_dev_aligned : forall r bs res,
+  bs <= 10 -> wf_ranges r = true ->
+  (forall i s, Nat.even i = true -> nth_error r i = Some s -> s < 2 ^ 64 - 2 ^ bs) ->
+  full_chunk_groups_dev r bs = Some res ->
+  forall c c', c / 2 ^ bs = c' / 2 ^ bs -> mem res c = mem res c'.
+Proof. exact gap_full_dev_aligned. Qed.
+Print Assumptions C17_full_dev_aligned.
+
+Theorem C17_full_dev_greatest : forall r bs res,
+  bs <= 10 -> wf_ranges r = true ->
+  (forall i s, Nat.even i = true -> nth_error r i = Some s -> s < 2 ^ 64 - 2 ^ bs) ->
+  full_chunk_groups_dev r bs = Some res ->
+  forall P : N -> bool,
+    (forall c, P c = true -> mem r c = true) ->
+    (forall c c', c / 2 ^ bs = c' / 2 ^ bs -> P c = P c') ->
+    forall c, P c = true -> mem res c = true.
+Proof. exact gap_full_dev_greatest. Qed.
+Print Assumptions C17_full_dev_greatest.
+
+Theorem C17_full_rel_subset : forall r bs res,
+  bs <= 10 -> wf_ranges r = true ->
+  (forall i s, Nat.even i = true -> nth_error r i = Some s -> s <= 2 ^ 64 - 2 ^ bs) ->
+  full_chunk_groups_rel r bs = Some res ->
+  forall c, mem res c = true -> mem r c = true.
+Proof. exact gap_full_rel_subset. Qed.
+Print Assumptions C17_full_rel_subset.
+
+Theorem C17_full_rel_aligned : forall r bs res,
+  bs <= 10 -> wf_ranges r = true ->
+  (forall i s, Nat.even i = true -> nth_error r i = Some s -> s <= 2 ^ 64 - 2 ^ bs) ->
+  full_chunk_groups_rel r bs = Some res ->
+  forall c c', c / 2 ^ bs = c' / 2 ^ bs -> mem res c = mem res c'.
+Proof. exact gap_full_rel_aligned. Qed.
+Print Assumptions C17_full_rel_aligned.
+
+Theorem C17_full_rel_greatest : forall r bs res,
+  bs <= 10 -> wf_ranges r = true ->
+  (forall i s, Nat.even i = true -> nth_error r i = Some s -> s <= 2 ^ 64 - 2 ^ bs) ->
+  full_chunk_groups_rel r bs = Some res ->
+  forall P : N -> bool,
+    (forall c, P c = true -> mem r c = true) ->
+    (forall c c', c / 2 ^ bs = c' / 2 ^ bs -> P c = P c') ->
+    forall c, P c = true -> mem res c = true.
+Proof. exact gap_full_rel_greatest. Qed.
+Print Assumptions C17_full_rel_greatest.
+
+Theorem C17_full_dev_nonvacuous :
+  exists r bs res c, bs <= 10 /\ wf_ranges r = true /\
+    (forall i s, Nat.even i = true -> nth_error r i = Some s -> s < 2 ^ 64 - 2 ^ bs) /\
+    full_chunk_groups_dev r bs = Some res /\ mem res c = true /\ res <> r /\
+    exists P : N -> bool,
+      (forall c, P c = true -> mem r c = true) /\
+      (forall c c', c / 2 ^ bs = c' / 2 ^ bs -> P c = P c') /\ P 16 = true /\ P 0 = false.
+Proof. exact gap_full_dev_nonvacuous. Qed.
+Print Assumptions C17_full_dev_nonvacuous.
+
+Theorem C17_full_rel_nonvacuous :
+  exists r bs res c, bs <= 10 /\ wf_ranges r = true /\
+    (forall i s, Nat.even i = true -> nth_error r i = Some s -> s <= 2 ^ 64 - 2 ^ bs) /\
+    ~ (forall i s, Nat.even i = true -> nth_error r i = Some s -> s < 2 ^ 64 - 2 ^ bs) /\
+    full_chunk_groups_rel r bs = Some res /\ full_chunk_groups_dev r bs = None /\
+    mem res c = true /\ res <> r /\
+    exists P : N -> bool,
+      (forall c, P c = true -> mem r c = true) /\
+      (forall c c', c / 2 ^ bs = c' / 2 ^ bs -> P c = P c') /\ P 16 = true /\ P 0 = false.
+Proof. exact gap_full_rel_nonvacuous. Qed.
+Print Assumptions C17_full_rel_nonvacuous.
+
+
+(* ---- exact domain of the debug build: it panics (None) EXACTLY when some start boundary is >= 2^64 - 2^bs ---- *)
+Theorem C17_full_dev_domain : forall r bs,
+  bs <= 10 -> wf_ranges r = true ->
+  (full_chunk_groups_dev r bs <> None
+   <-> (forall i s, Nat.even i = true -> nth_error r i = Some s -> s < 2 ^ 64 - 2 ^ bs)).
+Proof. exact gap_full_dev_domain. Qed.
+Print Assumptions C17_full_dev_domain.
+
+Theorem C17_full_dev_domain_nonvacuous :
+  (exists r bs, bs <= 10 /\ wf_ranges r = true /\ full_chunk_groups_dev r bs <> None /\ r <> []) /\
+  (exists r bs, bs <= 10 /\ wf_ranges r = true /\ full_chunk_groups_dev r bs = None).
+Proof. exact gap_full_dev_domain_nonvacuous. Qed.
+Print Assumptions C17_full_dev_domain_nonvacuous.
+
+
+(* ---- tightness of the weak guard for the release build: right outside it (2^64 - 2^bs < s < 2^64) ceil wraps to 0
+   and the result claims chunk 0, which is not in the set ---- *)
+Theorem C17_full_rel_tight_open : forall bs s,
+  bs <= 10 -> 2 ^ 64 - 2 ^ bs < s -> s < 2 ^ 64 ->
+  full_chunk_groups_rel [s] bs = Some [0] /\ mem [s] 0 = false.
+Proof. exact gap_full_rel_tight_open. Qed.
+Print Assumptions C17_full_rel_tight_open.
+
+Theorem C17_full_rel_tight_closed : forall bs s e,
+  bs <= 10 -> 2 ^ 64 - 2 ^ bs < s -> s < e -> e < 2 ^ 64 ->
+  exists res, full_chunk_groups_rel [s; e] bs = Some res /\ res = [0; 2 ^ 64 - 2 ^ bs] /\
+              mem res 0 = true /\ mem [s; e] 0 = false.
+Proof. exact gap_full_rel_tight_closed. Qed.
+Print Assumptions C17_full_rel_tight_closed.
+
+Theorem C17_full_rel_guard_exact : forall bs s,
+  bs <= 10 -> s < 2 ^ 64 ->
+  ((exists res, full_chunk_groups_rel [s] bs = Some res /\ forall c, mem res c = true -> mem [s] c = true)
+   <-> s <= 2 ^ 64 - 2 ^ bs).
+Proof. exact gap_full_rel_guard_exact. Qed.
+Print Assumptions C17_full_rel_guard_exact.
+
+
+(* for an individual range set the weak guard is sufficient but not necessary: the spurious range can be absorbed *)
+Theorem C17_full_rel_guard_not_necessary :
+  wf_ranges [0; 18446744073709551600; 18446744073709551606; 18446744073709551611] = true /\
+  full_chunk_groups_rel [0; 18446744073709551600; 18446744073709551606; 18446744073709551611] 4
+    = Some [0; 18446744073709551600] /\
+  full_chunk_groups_dev [0; 18446744073709551600; 18446744073709551606; 18446744073709551611] 4 = None /\
+  ~ (forall i s, Nat.even i = true ->
+       nth_error [0; 18446744073709551600; 18446744073709551606; 18446744073709551611] i = Some s ->
+       s <= 2 ^ 64 - 2 ^ 4) /\
+  (forall c, mem [0; 18446744073709551600] c = true
+             <-> (forall c', c' / 2 ^ 4 = c / 2 ^ 4 ->
+                    mem [0; 18446744073709551600; 18446744073709551606; 18446744073709551611] c' = true)).
+Proof. exact gap_full_rel_guard_not_necessary. Qed.
+Print Assumptions C17_full_rel_guard_not_necessary.
+
+Theorem C17_full_rel_tight_nonvacuous :
+  (exists bs s, bs <= 10 /\ 2 ^ 64 - 2 ^ bs < s /\ s < 2 ^ 64) /\
+  (exists bs s e, bs <= 10 /\ 2 ^ 64 - 2 ^ bs < s /\ s < e /\ e < 2 ^ 64) /\
+  (exists bs s, bs <= 10 /\ s < 2 ^ 64 /\ s <= 2 ^ 64 - 2 ^ bs /\ ~ s < 2 ^ 64 - 2 ^ bs).
+Proof. exact gap_full_rel_tight_nonvacuous. Qed.
+Print Assumptions C17_full_rel_tight_nonvacuous.
+
+
+(* ---- monotone / idempotent for the RELEASE build under the weak guard (above: debug build only); idempotence needs
+   no guard on the output, and holds at the level of lists ---- *)
+Theorem C17_full_rel_mono : forall r1 r2 bs res1 res2,
+  bs <= 10 -> wf_ranges r1 = true -> wf_ranges r2 = true ->
+  (forall i s, Nat.even i = true -> nth_error r1 i = Some s -> s <= 2 ^ 64 - 2 ^ bs) ->
+  (forall i s, Nat.even i = true -> nth_error r2 i = Some s -> s <= 2 ^ 64 - 2 ^ bs) ->
+  (forall c, mem r1 c = true -> mem r2 c = true) ->
+  full_chunk_groups_rel r1 bs = Some res1 -> full_chunk_groups_rel r2 bs = Some res2 ->
+  forall c, mem res1 c = true -> mem res2 c = true.
+Proof. exact gap_full_rel_mono. Qed.
+Print Assumptions C17_full_rel_mono.
+
+Theorem C17_full_rel_idem : forall r bs res,
+  bs <= 10 -> wf_ranges r = true ->
+  (forall i s, Nat.even i = true -> nth_error r i = Some s -> s <= 2 ^ 64 - 2 ^ bs) ->
+  full_chunk_groups_rel r bs = Some res ->
+  exists res', full_chunk_groups_rel res bs = Some res' /\ forall c, mem res' c = mem res c.
+Proof. exact gap_full_rel_idem. Qed.
+Print Assumptions C17_full_rel_idem.
+
+Theorem C17_full_rel_idem_list : forall r bs res,
+  bs <= 10 -> wf_ranges r = true ->
+  (forall i s, Nat.even i = true -> nth_error r i = Some s -> s <= 2 ^ 64 - 2 ^ bs) ->
+  full_chunk_groups_rel r bs = Some res ->
+  full_chunk_groups_rel res bs = Some res.
+Proof. exact gap_full_rel_idem_list. Qed.
+Print Assumptions C17_full_rel_idem_list.
+
+Theorem C17_full_rel_mono_nonvacuous :
+  exists r1 r2 bs res1 res2, bs <= 10 /\ wf_ranges r1 = true /\ wf_ranges r2 = true /\
+    (forall i s, Nat.even i = true -> nth_error r1 i = Some s -> s <= 2 ^ 64 - 2 ^ bs) /\
+    (forall i s, Nat.even i = true -> nth_error r2 i = Some s -> s <= 2 ^ 64 - 2 ^ bs) /\
+    (forall c, mem r1 c = true -> mem r2 c = true) /\
+    full_chunk_groups_rel r1 bs = Some res1 /\ full_chunk_groups_rel r2 bs = Some res2 /\
+    res1 <> [] /\ res1 <> res2 /\
+    full_chunk_groups_dev r1 bs = None /\ full_chunk_groups_dev r2 bs = None.
+Proof. exact gap_full_rel_mono_nonvacuous. Qed.
+Print Assumptions C17_full_rel_mono_nonvacuous.
+
+Theorem C17_full_rel_idem_nonvacuous :
+  exists r bs res, bs <= 10 /\ wf_ranges r = true /\
+    (forall i s, Nat.even i = true -> nth_error r i = Some s -> s <= 2 ^ 64 - 2 ^ bs) /\
+    full_chunk_groups_rel r bs = Some res /\ res <> [] /\ res <> r /\
+    full_chunk_groups_dev r bs = None.
+Proof. exact gap_full_rel_idem_nonvacuous. Qed.
+Print Assumptions C17_full_rel_idem_nonvacuous.
